@@ -772,6 +772,11 @@ macro_rules! chk4 {
 
 fn against_parse(v: &Version, text: &str, clause: &str, ty: &str, sink: &Sink) {
     let case = || json!({"engine":"D","kind":"c18-text","type":ty,"text":text});
+    // a different history: the same version with build metadata is parsed and printed first (the
+    // answer for `text` must not depend on earlier calls)
+    if let Ok(sib) = Version::parse(format!("{}+zz.9", text)) {
+        let _ = sib.to_string();
+    }
     let printed = v.to_string();
     if printed != text {
         sink.report(if clause == "fields3" { "print3" } else { "print4" }, format!("type={}|text={}", ty, text), case(), printed, text.to_string());
